@@ -2027,3 +2027,10 @@ def x_unpack(c):
         c.ret(("lit", "tuple", items, None), state=s1)
     else:
         c.ret(None, ("type", c.term, frozenset(["tuple"])))
+
+
+@ext("os.fdopen")
+def x_fdopen(c):
+    """os.fdopen(fd, mode): a file object around a descriptor (open(fd, mode))"""
+    c.rz("OSError", "os.fdopen() may fail", pure=False)
+    c.ret(None, ("type", c.term, frozenset(["obj:file"])), pure=False)
